@@ -29,8 +29,8 @@ fn setup(ctx: &mut Ctx) {
 
 fn strata(t: Tier) -> Vec<Stratum> {
     vec![
-        st("standalone-sequences", scale(t, 60_000, 6_000_000, 40)),
-        st("truncate-every-byte", scale(t, 3_000, 200_000, 3)),
+        st("standalone-sequences", scale(t, 4_800_000, 48_000_000, 40)),
+        st("truncate-every-byte", scale(t, 240_000, 2_400_000, 3)),
     ]
 }
 
